@@ -25,4 +25,29 @@ REG = {
         'while a slot is free when time advances, NON never held, nothing left held when quiet.',
    note='The "submitted before the session is established" clause is exercised on DTLS by C19 (UDP sessions are established on creation). '
         'Trusted as for C06.'),
+ 'C01': dict(module='codec', engine='codec', category='model_checking', design_ref='4/C01',
+   technique='TLA+ spec CoapWire/Pdu (TLC closed model: Dec(Enc(m))=m) + TLC validation of every real API call, encoding and re-parse',
+   text='CoapWire transcribes RFC 7252/8323/8974 encodings and decodings as operators; MC_Pdu model-checks that every builder/editor call '
+        'sequence over a boundary alphabet keeps options ordered and round-trips under all three framings. The real PDU API is then driven '
+        'through token x type x code x payload boundaries, every insertion order of option sets placed on the 12/13 and 268/269 delta and length '
+        'boundaries, max_size exact-fit bands, refusal cases, implicit Hop-Limit, and random call sequences; TLC checks each return value, each '
+        'accessor dump, each of the UDP/TCP/WS encodings byte-exactly against the RFC operators, and each re-parse.',
+   note='Long opaque values are pattern blobs abbreviated as runs (DESIGN.md 2.4); the 32-bit TCP length form cannot be produced by this build '
+        '(max PDU 65804) and is exercised only on the parse side (C03/C05). Trusted: TLC, the driver\'s atom projection.'),
+ 'C03': dict(module='codec', engine='codec', category='model_checking', design_ref='4/C03',
+   technique='TLA+ reference decoder (CoapWire!Dec) evaluated by TLC on every input given to the real coap_pdu_parse',
+   text='For a catalogue of valid messages every byte position is mutated (high/low nibble to 13/14/15/0/9/12, complement, 0xFF, +-1, byte inserted, '
+        'truncation at every length, appended markers) under UDP, TCP and WS framing, plus hand-made boundary inputs (option number overflow, '
+        'reserved nibbles, TKL 9-15, non-empty Empty, marker without payload), the per-option length table at min-1/min/max/max+1 and blind random '
+        'strings; TLC evaluates the RFC decoder on the logged bytes and requires accept <=> well-formed and accessor dump = reference decoding.',
+   note='Three table cells where RFC and libcoap differ (Uri-Query 0, Echo 0, Q-Block > 3) and unknown critical signalling options accept either '
+        'verdict (counted in evidence). Stream delimitation (TCP/WS reader) belongs to C05.'),
+ 'C04': dict(module='codec', engine='codec', category='model_checking', design_ref='4/C04',
+   technique='TLA+ spec Pdu (list-edit semantics, TLC closed model) + TLC validation of real edit sequences with forced reallocation',
+   text='Insert / update / remove / token replacement are list operations on the abstract message in Pdu; MC_Pdu checks all call sequences over a '
+        'boundary alphabet. The real API is driven over every single edit on six starting messages (built and parsed-from-wire, with/without payload, '
+        'allocation shrunk to the used size before every edit so that growth must realloc), ladders that make the following option cross the 13/269 '
+        'delta thresholds in both directions, all token length class pairs, and random sequences up to 40 edits; after every edit TLC compares the '
+        'accessor dump, and the re-encoding and re-parse, with the model.',
+   note='ASan/UBSan observe stale-pointer use after realloc; they are not part of the model. Trusted as for C01.'),
 }
